@@ -65,7 +65,15 @@ owner rewriting its payload between calls; managed memory that owns further shar
 function registered in two roles (constructor = destructor) and objects that differ in exactly one attribute; probes and arguments
 that point INTO the container they are used with; an allocator that refuses every request during operations that should need no
 memory; every way a hash function can come to be in force (kept by NULL, swapped in, after shrink/clear); two stray operands in one
-call; callback results of -1, 1, +-2, even values, values that vanish in narrow fields.  Find something else.
+call; callback results of -1, 1, +-2, even values, values that vanish in narrow fields.
+And since then: operation counts (one call pair repeated millions of times on one object, 70 000 references / views at once);
+containers declared through the macros with expression arguments and nested member designators; arguments of other arithmetic
+types, literal constants, compound literals; variables named like a macro author's locals; out-parameters that arrive holding old
+results; read-only re-entrancy (nested traversal of the same container from a visitor); hints and iterators used after further
+read-only calls; boundary keys (0, SIZE_MAX, 2^63, 2^32) as first keys after init/resize/clear; run-structured and almost-sorted
+sort inputs; elements of 257..5000 bytes; related re-allocations up to 1 MiB; what a failed call must not remember; keys adversarial
+for multiplicative hashing at any precision; stray copies at 2^16..2^46 distances; the library's global symbols outside cstl_; the
+library as shipped without any sanitizer, and MemorySanitizer.  Find something else.
 
 Think about interactions that a test author is unlikely to combine: operation X immediately after operation Y in
 state Z; the second use of an object after it was cleared/moved/swapped; an argument that is legal but unusual; a
